@@ -16,6 +16,7 @@ import shutil
 import subprocess
 import sys
 import tempfile
+import time
 from concurrent.futures import ProcessPoolExecutor
 
 REPO = os.environ.get("VERIF_REPO", "/repo")
@@ -329,16 +330,42 @@ def build(repo=None, config="release", use_cache=True, extra_units=()):
     if use_cache:
         os.makedirs(CACHE, exist_ok=True)
         # keep the cache small: drop entries beyond the 12 most recent
+        # (never another process's file that is still being written; stale temporaries older than an hour do go)
         try:
-            ents = sorted((os.path.getmtime(os.path.join(CACHE, f)), f) for f in os.listdir(CACHE))
-            for _, f in ents[:-12]:
-                os.unlink(os.path.join(CACHE, f))
+            now = time.time()
+            ents = []
+            for f in os.listdir(CACHE):
+                fp = os.path.join(CACHE, f)
+                try:
+                    mt = os.path.getmtime(fp)
+                except OSError:
+                    continue
+                if f.endswith(".tmp"):
+                    if now - mt > 3600:
+                        try:
+                            os.unlink(fp)
+                        except OSError:
+                            pass
+                    continue
+                ents.append((mt, f))
+            for _, f in sorted(ents)[:-12]:
+                try:
+                    os.unlink(os.path.join(CACHE, f))
+                except OSError:
+                    pass
         except OSError:
             pass
+        # the cache is best effort: a failure to store the entry never fails the analysis
         tmp = cpath + ".%d.tmp" % os.getpid()
-        with open(tmp, "wb") as f:
-            pickle.dump(res, f, protocol=pickle.HIGHEST_PROTOCOL)
-        os.replace(tmp, cpath)
+        try:
+            with open(tmp, "wb") as f:
+                pickle.dump(res, f, protocol=pickle.HIGHEST_PROTOCOL)
+            os.replace(tmp, cpath)
+        except OSError:
+            try:
+                os.unlink(tmp)
+            except OSError:
+                pass
     return res
 
 
